@@ -2,8 +2,11 @@
    Property theorems only.  Models: NV.Bcf.Ints (Int8/16/32 sentinels, width selection by scalar
    test and by min/max scan, byte images), NV.Bcf.Typed (descriptor byte, INFO Integer/Float/
    String values, per-sample FORMAT Integer/Float series, both directions), NV.Bcf.Genotype
-   (GT series).  The models reproduce the pinned code including its error results and panics and
-   are compared with the real writer/reader byte for byte by bin/check C10. *)
+   (GT series).  The models describe the code AFTER the fix: commits 01..08 of this property (missing INFO
+   value, IDX in the header, GT padding, phase of missing alleles, all-missing Integer vector
+   series, lazy one-element vectors, checked allele arithmetic, end-of-vector/reserved floats),
+   including its error results, and are compared with the real writer/reader byte for byte by
+   bin/check C10. *)
 From Coq Require Import ZArith NArith List Bool.
 From NV Require Import Bcf.Ints Bcf.IntsProofs Bcf.Typed Bcf.TypedProofs Bcf.Genotype Bcf.GenotypeProofs.
 Import ListNotations.
@@ -70,8 +73,9 @@ Print Assumptions bcf_descriptor_too_long_is_error.
    missing entries, unequal lengths (padded with EndOfVector to the longest), values anywhere in
    -2^31+8..2^31-1, through the writer's own min/max scan and length computation.  Read back:
    the same vectors with their own lengths ([norm]: a vector that is exactly one missing entry
-   is the VCF field `.`, i.e. the missing value).  Excluded: series in which no sample has an
-   entry (max_len = 0) -- refuted below. *)
+   is the VCF field `.`, i.e. the missing value).  A missing sample occupies one entry, so
+   max_len >= 1 unless the series has no samples or only vectors without entries (which have no
+   VCF text). *)
 Theorem bcf_int_vector_roundtrip : forall vals,
   entries_within (-2147483640) 2147483647 vals ->
   (1 <= max_len vals)%nat -> Z.of_nat (max_len vals) <= 2147483647 ->
@@ -88,18 +92,30 @@ Print Assumptions bcf_int_vector_below_min_is_error.
 (* the decoder side for ANY fitting width and ANY common length (not only the writer's choice) *)
 Theorem bcf_int_series_roundtrip_any_width : forall w m vals rest,
   (forall s, In s vals -> sample_fits w s) ->
-  (forall s, In s vals -> (sample_len s <= m)%nat) -> (1 <= m)%nat ->
+  (forall s, In s vals -> (sample_len s <= m)%nat) ->
   dec_samples w (length vals) m
     (flat_map (fun s => flat_map (enc_int w) (sample_raws w m s)) vals ++ rest)
   = ROk (map norm vals).
 Proof. exact series_roundtrip. Qed.
 Print Assumptions bcf_int_series_roundtrip_any_width.
 
-(* known finding fmt-int-vector-all-samples-missing: accepted by the writer, unreadable *)
-Theorem bcf_int_vector_all_missing_refuted :
-  exists vals bs, enc_fmt_ints vals = Ok bs /\ dec_fmt_ints (length vals) bs = RErr.
-Proof. exact all_missing_series_refuted. Qed.
-Print Assumptions bcf_int_vector_all_missing_refuted.
+(* `GT:AD 0/1:. 0/0:.`: a series in which every sample is missing round-trips (it was written
+   with a zero-length descriptor before fix 05) *)
+Theorem bcf_int_vector_all_missing_roundtrip : forall vals,
+  vals <> [] -> (forall s, In s vals -> s = None) ->
+  exists bs, enc_fmt_ints vals = Ok bs /\ dec_fmt_ints (length vals) bs = ROk (BVectors vals).
+Proof. exact all_missing_series_roundtrip. Qed.
+Print Assumptions bcf_int_vector_all_missing_roundtrip.
+
+(* an INFO field whose value is missing (`DP=.`) is written (it panicked before fix 01) and is
+   read back as missing whatever the field's type *)
+Theorem bcf_info_missing_roundtrip :
+  exists bs, enc_info_missing = Ok bs /\
+    dec_info_int bs = ROk RNone /\ dec_info_ints bs = ROk RNone /\
+    dec_info_float bs = ROk RNone /\ dec_info_floats bs = ROk RNone /\
+    dec_info_string bs = ROk None.
+Proof. exact info_missing_roundtrip. Qed.
+Print Assumptions bcf_info_missing_roundtrip.
 
 (* Floats: every 32-bit pattern outside the reserved NaNs 0x7f800001..0x7f800007 is read back
    bit for bit (the canonical NaN 0x7fc00000 and all other NaN payloads included). *)
@@ -113,29 +129,41 @@ Theorem bcf_float_missing_pattern_refuted :
 Proof. exact float_missing_pattern_refuted. Qed.
 Print Assumptions bcf_float_missing_pattern_refuted.
 
-(* Genotypes (partial): every representable allele -- index 0..62 with either phasing -- is
-   encoded as (allele+1)<<1|phased in 0..127 and parsed back to the same allele and phasing.
-   The series-level statement [genotype_roundtrip_full_statement] is FALSE for the model (and for
-   the code): known findings gt-mixed-ploidy-padding and gt-missing-allele-phase-lost. *)
-Theorem bcf_genotype_roundtrip_partial : forall p ph, 0 <= p <= 62 -> allele_ok (Some p, ph) = true.
-Proof. exact allele_roundtrip. Qed.
-Print Assumptions bcf_genotype_roundtrip_partial.
+(* end-of-vector / reserved float patterns are errors in the vector and per-sample writers *)
+Theorem bcf_float_eov_or_reserved_is_error : forall b, eov_or_reserved b ->
+  enc_info_floats [Some b] = ErrInput /\ enc_fmt_float [Some b] = ErrInput /\
+  enc_fmt_floats [Some [Some b]] = ErrInput.
+Proof. exact float_eov_or_reserved_is_error. Qed.
+Print Assumptions bcf_float_eov_or_reserved_is_error.
 
-Theorem bcf_genotype_mixed_ploidy_refuted :
-  exists gs bs, enc_gt gs = Ok bs /\ dec_gt (length gs) bs <> ROk (map Some gs).
-Proof. exact genotype_mixed_ploidy_refuted. Qed.
-Print Assumptions bcf_genotype_mixed_ploidy_refuted.
+(* Genotypes: any number of samples, ANY mix of ploidies (padded with EndOfVector after the
+   alleles), missing alleles with either phasing, allele indices 0..62, through the writer's own
+   length computation: read back as the same alleles and phasing.  Premise max_len >= 1: a series
+   made only of genotypes without alleles has no VCF text. *)
+Theorem bcf_genotype_roundtrip : forall gs,
+  (forall g a, In g gs -> In a g -> allele_valid a) ->
+  (1 <= gt_max_len (map (map code) gs))%nat ->
+  Z.of_nat (gt_max_len (map (map code) gs)) <= 2147483647 ->
+  exists bs, enc_gt gs = Ok bs /\ dec_gt (length gs) bs = ROk (map Some gs).
+Proof. exact genotype_roundtrip. Qed.
+Print Assumptions bcf_genotype_roundtrip.
 
-Theorem bcf_genotype_missing_phase_refuted :
-  exists gs bs, enc_gt gs = Ok bs /\ dec_gt (length gs) bs <> ROk (map Some gs).
-Proof. exact genotype_missing_phase_refuted. Qed.
-Print Assumptions bcf_genotype_missing_phase_refuted.
+(* the decoder side for any common length *)
+Theorem bcf_genotype_series_roundtrip_any_length : forall m gs rest,
+  (forall g a, In g gs -> In a g -> allele_valid a) ->
+  (forall g, In g gs -> (length g <= m)%nat) ->
+  dec_gt_samples (length gs) m (concat (map (sbytes m) gs) ++ rest) = ROk (map Some gs).
+Proof. exact gt_series_roundtrip. Qed.
+Print Assumptions bcf_genotype_series_roundtrip_any_length.
 
-Theorem bcf_genotype_full_statement_refuted : ~ genotype_roundtrip_full_statement.
-Proof. exact genotype_refutes_full_statement. Qed.
-Print Assumptions bcf_genotype_full_statement_refuted.
+(* allele indices from 63 on are errors (127 panicked before fix 07) *)
+Theorem bcf_genotype_allele_too_large_is_error : forall p ph, 63 <= p ->
+  enc_gt [[(Some p, ph)]] = ErrInput \/ enc_gt [[(Some p, ph)]] = ErrData.
+Proof. exact genotype_allele_too_large_is_error. Qed.
+Print Assumptions bcf_genotype_allele_too_large_is_error.
 
-(* c10_partial: the composition for the modelled kinds.  What C10 states in full -- every record
+(* c10_partial: the composition for the modelled kinds (partial: Character/String series, string
+   maps and record framing are not modelled).  What C10 states in full -- every record
    the writer accepts is read back as the same record, string-map indices included -- is covered
    beyond these kinds by the implementation-side oracle only. *)
 Theorem c10_partial :
@@ -149,10 +177,14 @@ Theorem c10_partial :
   (forall b, 0 <= b < 4294967296 -> ~ reserved_nan b ->
      exists bs, enc_info_float b = Ok bs /\ dec_info_float bs = ROk (RFloat b)) /\
   (forall code len rest, valid_code code = true -> 0 <= len <= 2147483647 ->
-     exists bs, enc_type code len = Ok bs /\ read_type (bs ++ rest) = Some (code, len, rest)).
+     exists bs, enc_type code len = Ok bs /\ read_type (bs ++ rest) = Some (code, len, rest)) /\
+  (forall gs, (forall g a, In g gs -> In a g -> allele_valid a) ->
+     (1 <= gt_max_len (map (map code) gs))%nat ->
+     Z.of_nat (gt_max_len (map (map code) gs)) <= 2147483647 ->
+     exists bs, enc_gt gs = Ok bs /\ dec_gt (length gs) bs = ROk (map Some gs)).
 Proof.
   split; [|split; [exact int_below_min_is_error|split; [exact fmt_int_vector_roundtrip|
-    split; [exact float_roundtrip|exact descriptor_roundtrip]]]].
+    split; [exact float_roundtrip|split; [exact descriptor_roundtrip|exact genotype_roundtrip]]]]].
   intros n H. destruct (int_width_sound n H) as [w [bs [_ [_ [_ [E D]]]]]]. exists bs. split; assumption.
 Qed.
 Print Assumptions c10_partial.
